@@ -230,6 +230,27 @@ class LogTap(logging.Handler):
         return r
 
 
+def defloat(obj):
+    """replace protocol floats ('float:0.3') by the exact rational of the float so that the oracle can go on; returns (obj, first
+    float seen or None) - a float among the weights of an exact count is reported, not crashed on"""
+    seen = []
+
+    def go(x):
+        if isinstance(x, str) and x.startswith('float:'):
+            seen.append(x)
+            try:
+                return num_str(Fraction(float(x[6:])))
+            except (ValueError, OverflowError):
+                return '0'
+        if isinstance(x, list):
+            return [go(y) for y in x]
+        if isinstance(x, dict):
+            return {k: go(v) for k, v in x.items()}
+        return x
+    out = go(obj)
+    return out, (seen[0] if seen else None)
+
+
 def qstr(q):
     if q is None or q == float('inf'):
         return None
@@ -270,6 +291,8 @@ def record_run(case, call):
                 new_alloc, newly = orig_next(allocation, n_seats, total_n_votes, prev_gains=prev_gains, max_seats=max_seats)
             except Exception as e:      # noqa
                 rec['err'] = err_name(e)
+                rec['quota_seen'] = qstr(quotas[-1]) if quotas else None
+                rec['quota_computed'] = bool(quotas)
                 counts.append(rec)
                 raise
             shortcut, eliminated = count_info(tap.take())
@@ -297,6 +320,9 @@ def record_run(case, call):
         except Exception as e:      # noqa
             res = {'err': err_name(e)}
             msg = str(e)
+        counts, leak = defloat(counts)
+        if leak:
+            dr.bad.append('float in an exact path: ' + leak)
         return res, counts, dr.protocol(), dr.bad, msg
 
 
